@@ -777,6 +777,16 @@ func c09RunFuse(c *c09Case) (obs string, failAt int, cls, what string, hung bool
 	return fmt.Sprintf("%s;calls=%d", o, calls), failAt, cls, what, false
 }
 
+// c09FuseCalls: how many store calls the requests make (used to aim a fault at a particular call)
+func c09FuseCalls(c *c09Case) int {
+	obs, _, _, _, hung := c09RunFuse(c)
+	if hung {
+		return 0
+	}
+	n, _ := strconv.Atoi(obs[strings.LastIndex(obs, "calls=")+6:])
+	return n
+}
+
 func min64(a, b int64) int64 {
 	if a < b {
 		return a
@@ -1044,6 +1054,58 @@ func runC09(a vh.Args, o *vh.Oracle, r *vh.Result) error {
 			if ans != strconv.Itoa(want) {
 				r.Fail("corr", "corr:C09/sort.Search", fmt.Sprintf("go_search=%s sort.Search=%d on %s", ans, want, bs), map[string]interface{}{"n": n, "bits": bs})
 			}
+		}
+	}
+	// a read that spans chunk boundaries and whose LATER chunk fails in the store, then the identical request again on
+	// the same handle (an application or kernel retry) once the store answers, mixed with reads at other offsets
+	for i, made := 0, 0; made < nFuse/3 && i < 20*nFuse; i++ {
+		c := mk("fuse")
+		if len(c.Sizes) < 2 {
+			continue
+		}
+		made++
+		c.Shape += "+retry"
+		c.NH = 1 + rng.Intn(3)
+		bs := c09Boundaries(c.Sizes)
+		L := bs[len(bs)-1]
+		b := 1 + rng.Intn(len(bs)-2) // an inner boundary
+		span := 1 + rng.Intn(3)        // how many boundaries the request crosses
+		if b+span-1 > len(bs)-2 {
+			span = len(bs) - 1 - b
+		}
+		off := bs[b] - 1 - int64(rng.Intn(int(bs[b]-bs[b-1])))
+		end := bs[b+span-1] + 1 + int64(rng.Intn(int(bs[b+span]-bs[b+span-1])))
+		rq := c09Req{H: rng.Intn(c.NH), Off: off, Len: int(end - off)}
+		for k := 0; k < rng.Intn(3); k++ { // earlier traffic on this or another handle
+			c.Reqs = append(c.Reqs, c09Req{H: rng.Intn(c.NH), Off: c09Target(rng, bs, L), Len: c09ReadLen(rng, c.Sizes, c.Max, L)})
+		}
+		pre := len(c.Reqs)
+		c.Reqs = append(c.Reqs, rq)
+		for k := 0; k < rng.Intn(3); k++ {
+			h := rng.Intn(c.NH)
+			if rng.Bool() && c.NH > 1 {
+				h = (rq.H + 1) % c.NH // another handle in between does not disturb this one
+			}
+			c.Reqs = append(c.Reqs, c09Req{H: h, Off: c09Target(rng, bs, L), Len: c09ReadLen(rng, c.Sizes, c.Max, L)})
+		}
+		c.Reqs = append(c.Reqs, rq, c09Req{H: rq.H, Off: c09Target(rng, bs, L), Len: 1 + rng.Intn(c.Max)}, rq)
+		// the fault belongs on a store call of the spanning request other than its first one: find out how many calls
+		// the requests before it make and how many it makes itself (healthy dry run on the implementation)
+		dry := *c
+		dry.Reqs = c.Reqs[:pre]
+		before := c09FuseCalls(&dry)
+		dry.Reqs = c.Reqs[:pre+1]
+		own := c09FuseCalls(&dry) - before
+		if own >= 2 {
+			c.Faults = []c09Fault{{K: before + 1 + rng.Intn(own-1), Code: []int{1, 2, 4, 5}[rng.Intn(4)]}}
+			r.Dist("fuse:retry-after-failed-later-chunk")
+		}
+		if err := c09CheckFuse(a, o, r, c); err != nil {
+			if err == errC09Hang {
+				r.Note("run aborted after a hang")
+				return nil
+			}
+			return err
 		}
 	}
 	for i := 0; i < nFuse; i++ {
